@@ -36,19 +36,20 @@ type Tx struct {
 
 // Report is what Exec observed for one transaction.
 type Report struct {
-	OK         bool
-	Res        chain.TxResult
-	Exp        []*Expect
-	TxExp      Outcome
-	Deps       []chain.DepCall
-	Ops        []chain.StoreOp
-	Events     []*ref.Event
-	Sent       [][]byte // decoded MessageSent payloads in order
-	SentIdx    []int    // index of the transaction message that emitted each of them (msg_index attribute; -1 unknown)
-	RespNonces []uint64
-	Adopted    bool
-	PreHash    [32]byte
-	PostHash   [32]byte
+	OK          bool
+	Res         chain.TxResult
+	Exp         []*Expect
+	TxExp       Outcome
+	Deps        []chain.DepCall
+	Ops         []chain.StoreOp
+	Events      []*ref.Event
+	Sent        [][]byte // decoded MessageSent payloads in order
+	SentIdx     []int    // index of the transaction message that emitted each of them (msg_index attribute; -1 unknown)
+	RespNonces  []uint64
+	RecvSuccess []bool // the success flag of every MsgReceiveMessageResponse of a successful transaction
+	Adopted     bool
+	PreHash     [32]byte
+	PostHash    [32]byte
 }
 
 // Engine = real chain + reference model + online monitors.
@@ -932,6 +933,9 @@ func (e *Engine) decodeEvents(tx *Tx, rep *Report) {
 				strings.HasSuffix(any.TypeUrl, "MsgDepositForBurnResponse") || strings.HasSuffix(any.TypeUrl, "MsgDepositForBurnWithCallerResponse") {
 				rep.RespNonces = append(rep.RespNonces, wireField1Varint(any.Value))
 			}
+			if strings.HasSuffix(any.TypeUrl, "MsgReceiveMessageResponse") {
+				rep.RecvSuccess = append(rep.RecvSuccess, wireField1Varint(any.Value) != 0)
+			}
 		}
 	}
 }
@@ -1565,6 +1569,27 @@ func (e *Engine) checkSuccessImplies(tx *Tx, rep *Report) {
 						fmt.Sprintf("the module asked to burn %s%s, which is not what a depositor was debited in this transaction: %s", d.Amount, d.Denom, depSummary(rep.Deps)), e.caseOf(tx, ""))
 				}
 			}
+		}
+	}
+	// a receive transaction that is committed reports success = true and one MessageReceived event per receive: a
+	// transaction that goes through although the receive did not take place leaves its pair consumed for nothing
+	receives := 0
+	for _, m := range tx.Msgs {
+		if _, ok := m.(*ct.MsgReceiveMessage); ok {
+			receives++
+		}
+	}
+	if receives > 0 {
+		e.Rc.Cov.Assert("C02.committed-receive-succeeded")
+		okFlags := 0
+		for _, f := range rep.RecvSuccess {
+			if f {
+				okFlags++
+			}
+		}
+		if evs := len(eventsOfType(rep, "circle.cctp.v1.MessageReceived")); okFlags != receives || evs != receives {
+			e.viol([]string{"C02", "C14", "C03"}, "all-or-nothing", "C02:receive-committed-without-success",
+				fmt.Sprintf("a transaction with %d receive(s) was committed with %d success flags and %d MessageReceived events: the pair is consumed although no receive for it succeeded", receives, okFlags, evs), e.caseOf(tx, ""))
 		}
 	}
 	if okCalls["Mint"] < moduleReceives {
